@@ -769,6 +769,15 @@ pub struct ThreadEnd {
 }
 unsafe impl Send for ThreadEnd {}
 
+impl Drop for ThreadEnd {
+    fn drop(&mut self) {
+        // never release into a list that may be corrupted: detach whatever is left
+        for h in self.handles.iter_mut() {
+            h.h.0.detach_();
+        }
+    }
+}
+
 pub struct ThreadStart {
     pub t: usize,
     pub arenas: Vec<Option<Box<Arena>>>,
@@ -829,7 +838,7 @@ pub fn thread_main(st: ThreadStart) -> ThreadEnd {
         }
     };
     finish_thread(t);
-    ThreadEnd { handles, arenas, aborted, ops_done }
+    ThreadEnd { handles: std::mem::take(&mut handles), arenas: std::mem::take(&mut arenas), aborted, ops_done }
 }
 
 fn run_top(t: usize, op: &TOp, arenas: &mut Vec<Option<Box<Arena>>>, handles: &mut Vec<THandle>, next_id: &mut u64) {
